@@ -72,21 +72,25 @@ pub fn builtin_map_with_index(func: NativeFn!((u32, Val) -> Val), arr: Indexable
 
 #[builtin]
 pub fn builtin_map_with_key(
-	func: NativeFn!((IStr, Val) -> Val),
+	func: NativeFn!((IStr, Thunk<Val>) -> Val),
 	obj: ObjValue,
-) -> Result<ObjValue> {
+) -> ObjValue {
 	let mut out = ObjValueBuilder::new();
-	for (k, v) in obj.iter(
+	// As in `{ [k]: func(k, obj[k]) for k in std.objectFields(obj) }`, neither the function
+	// nor the field values are evaluated until a field of the result is.
+	for k in obj.fields(
 		// Makes sense mapped object should be ordered the same way, should not break anything when the output is not ordered (the default).
-		// The thrown error might be different, but jsonnet
-		// does not specify the evaluation order.
 		#[cfg(feature = "exp-preserve-order")]
 		true,
 	) {
-		let v = v?;
-		out.field(k.clone()).value(func.call(k, v)?);
+		let v = obj
+			.get_lazy(k.clone())
+			.expect("iterating over keys, field exists");
+		let func = func.clone();
+		let key = k.clone();
+		out.field(k).thunk(Thunk!(move || func.call(key, v)));
 	}
-	Ok(out.build())
+	out.build()
 }
 
 #[builtin]
